@@ -576,6 +576,25 @@ class rmregbase64(X86Instruction):
         return r
 
 
+class RmWrite:
+    """Mixin for instructions that modify their r/m operand in place.
+
+    The register inside a register r/m operand (RmReg8 .. RmReg64) is
+    declared as read only, which is right for instructions like cmp or
+    idiv, but not for neg, not, dec and the shifts: they write the register
+    too. Liveness analysis and the spill code of the register allocator
+    rely on this (a spilled register must be stored back after such an
+    instruction).
+    """
+
+    @property
+    def defined_registers(self):
+        registers = super().defined_registers
+        if isinstance(self.rm, (RmReg8, RmReg16, RmReg32, RmReg64)):
+            registers.append(self.rm.reg_rm)
+        return registers
+
+
 class RmBase(rmregbase64):
     def set_user_patterns(self, tokens):
         tokens.set_field("reg", self.reg)
@@ -713,32 +732,35 @@ class RmBase16(rmregbase16):
         tokens.set_field("opcode", self.opcode)
 
 
-def make_rm64(mnemonic, opcode, o):
+def make_rm64(mnemonic, opcode, o, write_rm=True):
     """Create an instruction taking a 64 bit r/m operand"""
     rm = Operand("rm", rm64_modes)
     syntax = Syntax([mnemonic, " ", rm], priority=2)
     members = {"syntax": syntax, "rm": rm, "opcode": opcode, "reg": o}
-    return type(mnemonic.title(), (RmBase,), members)
+    bases = (RmWrite, RmBase) if write_rm else (RmBase,)
+    return type(mnemonic.title(), bases, members)
 
 
-def make_rm32(mnemonic, opcode, o):
+def make_rm32(mnemonic, opcode, o, write_rm=True):
     """Create an instruction taking a 32 bit r/m operand"""
     rm = Operand("rm", rm32_modes)
     syntax = Syntax([mnemonic, " ", rm], priority=2)
     members = {"syntax": syntax, "rm": rm, "opcode": opcode, "reg": o}
-    return type(mnemonic.title(), (RmBase,), members)
+    bases = (RmWrite, RmBase) if write_rm else (RmBase,)
+    return type(mnemonic.title(), bases, members)
 
 
-def make_rm16(mnemonic, opcode, o):
+def make_rm16(mnemonic, opcode, o, write_rm=True):
     """Create an instruction taking a 16 bit r/m operand"""
     rm = Operand("rm", rm16_modes)
     syntax = Syntax([mnemonic, " ", rm], priority=2)
     members = {"syntax": syntax, "rm": rm, "opcode": opcode, "reg": o}
-    return type(mnemonic.title(), (RmBase16,), members)
+    bases = (RmWrite, RmBase16) if write_rm else (RmBase16,)
+    return type(mnemonic.title(), bases, members)
 
 
 Dec = make_rm64("dec", 0xFF, 1)
-Jmp = make_rm64("jmp", 0xFF, 4)
+Jmp = make_rm64("jmp", 0xFF, 4, write_rm=False)
 # Inc = make_rm('jmp', 0xff, 4)
 
 
@@ -933,7 +955,7 @@ class InstructionCollection:
         else:
             raise NotImplementedError(str(bits))
 
-        class shift_cl_base(X86Instruction):
+        class shift_cl_base(RmWrite, X86Instruction):
             rm = Operand("rm", rm_modes)
             tokens = bit_tokens
             patterns = {"opcode": 0xD3}
@@ -1025,7 +1047,7 @@ XorImm = make_regimm("xor", 0x81, 6)
 CmpImm = make_regimm("cmp", 0x81, 7)
 
 
-class shift8_cl_base(X86Instruction):
+class shift8_cl_base(RmWrite, X86Instruction):
     rm = Operand("rm", rm8_modes)
     tokens = [RexToken, OpcodeToken, ModRmToken]
     patterns = {"opcode": 0xD2}
